@@ -22,7 +22,8 @@ EXPLANATION = (
     'table (with disposal) and the registry; (UAR.1) no request is used after a call that may retire it; '
     '(SET.*) the container pairing rules of C19 that the table relies on: one caller of the cleanup slot, '
     'guarded dispose on detached nodes, count adjusted once per path, list links repaired on insert, '
-    'replace and remove, no use of a disposed node.')
+    'replace and remove, no use of a disposed node.'
+    ' Rounds 8-9: (OWN.1) per-client module records own nothing but themselves; (WMC.2) an event that carries a request is kept in it; (MPT.4) the reader keeps being woken while input is left.')
 ASSUMPTIONS = ['clang 14 CFG', 'set_remove/set_clear with no_dispose == 0 run the set\'s cleanup on the removed element and free it (C19)']
 
 
